@@ -162,11 +162,11 @@ def canon(r):
     if r.exc_info and r.exc_info[0] is not None:
         exc_name = r.exc_info[0].__name__
         exc_text = _FMT.formatException(r.exc_info)
-    return (r.name, r.levelname, str(r.msg), tuple(str(a) for a in args), message, exc_name, exc_text)
+    return (r.name, r.levelname, str(r.msg), tuple(str(a) for a in args), message, exc_name, exc_text, r.funcName)
 
 
 def blob(c):
-    name, level, msg, args, message, exc_name, exc_text = c
+    name, level, msg, args, message, exc_name, exc_text = c[:7]
     return "\x1f".join([msg, repr(msg), message, repr(message), exc_text, repr(exc_text)] + list(args) + [repr(a) for a in args])
 
 
@@ -182,7 +182,7 @@ def transcript(cs, with_asyncio=False):
     """canonical transcript for the twin comparison: addresses -> placeholders, traceback text dropped
     (it contains only source locations; it is inspected by the marker oracle)"""
     out = []
-    for name, level, msg, args, message, exc_name, exc_text in cs:
+    for name, level, msg, args, message, exc_name, exc_text, func in cs:
         if name == "asyncio" and not with_asyncio:
             continue
         if msg in ADDR_FMTS:
@@ -348,8 +348,19 @@ def split_loggers(cs):
 
 
 def session_body(srv):
-    """server records of the control connections: drop 'serving on' / 'waiting for' and the EOF traceback"""
-    return [c for c in srv if c[2] not in ("serving on %s:%s", "waiting for %d tasks") and not is_eof_record(c)]
+    """the server records the model reproduces: those emitted by the modelled sites (parse_command, write_line,
+    the dispatcher's two connection records).  Records of other sites ('serving on', 'waiting for', the EOF
+    traceback, any site added later) are not compared with the model; the secrecy oracle still sees them."""
+    return [
+        c
+        for c in srv
+        if c[7] in ("parse_command", "write_line")
+        or (c[7] == "dispatcher" and c[2] in ("new connection from %s:%s", "closing connection from %s:%s"))
+    ]
+
+
+def client_body(cli):
+    return [c for c in cli if c[7] in ("command", "parse_line")]
 
 
 def conn_addr(srv):
@@ -423,7 +434,7 @@ def correspondence(ctx, budget=None):
         ctx.case(("F1", v, sep, p, e))
         ctx.traces_impl += 1
         (kind, _), cs = impl_parse_command(loop, server, line.encode("utf-8", "surrogatepass"))
-        srv = [c for c in cs if c[0] == "aioftp.server"]
+        srv = [c for c in cs if c[0] == "aioftp.server" and c[7] == "parse_command"]
         if o[0] == -1:
             if kind != "reset" or srv:
                 ctx.disagree("parse_command_log", line, "no record (ConnectionResetError)", [kind, srv])
@@ -463,15 +474,15 @@ def correspondence(ctx, budget=None):
         cmd = rng.choice(["PASS " + p, "PASS " + p, "USER " + p, "ACCT " + p, p, "PASS"])
         k = rng.choice(ks) if rng.random() < 0.6 else 5
         cjobs.append((cmd, k, False))
-        if cmd.startswith("PASS ") and k == 5 and p.strip():
-            cjobs.append(("PASS " + twin(rng, p), 5, True))
+        if cmd.startswith("PASS ") and k == 5 and cmd[5:].strip():
+            cjobs.append(("PASS " + twin(rng, cmd[5:]), 5, True))
     mo = ctx.model([(1, [cmd, 0 if k is None else k]) for cmd, k, _ in cjobs])
     prev = None
     for (cmd, k, is_twin), o in zip(cjobs, mo):
         ctx.case(("F2", cmd, k))
         ctx.traces_impl += 1
         kind, cs = impl_client_command(loop, client, cmd, k)
-        cl = [c for c in cs if c[0] == "aioftp.client"]
+        cl = [c for c in cs if c[0] == "aioftp.client" and c[7] == "command"]
         if [irec(c) for c in cl] != [mrec(x) for x in o]:
             ctx.disagree("client_command_log", [cmd, k], [mrec(x) for x in o], [irec(c) for c in cl])
         if len(xcheck) < 70 and len(cmd) < 40:
@@ -564,10 +575,8 @@ def correspondence(ctx, budget=None):
         ms, mc = [mrec(x) for x in o[0]], [mrec(x) for x in o[1]]
         if not recs_match(ms, [irec(c) for c in session_body(srv)]):
             ctx.disagree("S1-server-records", [kd, q], ms, [irec(c) for c in session_body(srv)])
-        if not recs_match(mc, [irec(c) for c in cli]):
-            ctx.disagree("S1-client-records", [kd, q], mc, [irec(c) for c in cli])
-        if [c for c in other if c[0] != "asyncio"]:
-            ctx.disagree("S1-unexpected-logger", [kd, q], [], [c[:5] for c in other if c[0] != "asyncio"])
+        if not recs_match(mc, [irec(c) for c in client_body(cli)]):
+            ctx.disagree("S1-client-records", [kd, q], mc, [irec(c) for c in client_body(cli)])
         if len(xcheck) < 85 and len(q) < 12:
             xcheck.append((4, [censor, enc_users(spec), "PASS ", 5, conn_addr(srv)[0], conn_addr(srv)[1], user, q, ""], o))
     ctx.count("S1_client_sessions", len(s1_runs))
